@@ -138,3 +138,24 @@ CHECKS = {
                         "server-chosen ids are compared by freshness, not by value"],
     },
 }
+
+
+# ---- entries proposed alongside the props packages (harness/props/<pkg>/config_entry.py define a dict named like the id)
+def _load_entries():
+    import glob, os, re
+    here = os.path.dirname(os.path.abspath(__file__))
+    for f in sorted(glob.glob(os.path.join(here, "harness", "props", "*", "config_entry.py"))):
+        ns = {"T": T}
+        exec(compile(open(f).read(), f, "exec"), ns)
+        for k, v in list(ns.items()):
+            if k.startswith("__") or not isinstance(v, dict):
+                continue
+            if re.fullmatch(r"C\d\d", k) and k not in CHECKS:
+                CHECKS[k] = v
+            elif v and all(isinstance(kk, str) and re.fullmatch(r"C\d\d", kk) and isinstance(vv, dict) for kk, vv in v.items()):
+                for kk, vv in v.items():
+                    if kk not in CHECKS:
+                        CHECKS[kk] = vv
+
+
+_load_entries()
